@@ -24,7 +24,72 @@ func (f *frame) call(site siteT, cc *ssa.CallCommon) Val {
 	} else {
 		fnVal = f.get(cc.Value)
 	}
+	f.atCallAsserts(cc, site.Pos())
 	return f.doCall(site, cc, fnVal, args, site.Pos())
+}
+
+// atCallAsserts generates the obligations of `at call NAME#k: assert E` clauses.
+func (f *frame) atCallAsserts(cc *ssa.CallCommon, pos token.Pos) {
+	if !f.top || f.contract == nil || len(f.contract.AtCalls) == 0 {
+		return
+	}
+	name := ""
+	if cc.IsInvoke() {
+		name = ifaceMethodKey(cc.Value.Type(), cc.Method)
+	} else if callee := cc.StaticCallee(); callee != nil {
+		name = funcKey(callee)
+	} else {
+		name = "func value " + cc.Value.Name()
+	}
+	for _, ac := range f.contract.AtCalls {
+		if !strings.HasSuffix(name, ac.Callee) {
+			continue
+		}
+		f.callOrd["at "+ac.Callee]++
+		// count once per distinct callee pattern
+	}
+	seen := map[string]bool{}
+	for _, ac := range f.contract.AtCalls {
+		if !strings.HasSuffix(name, ac.Callee) {
+			continue
+		}
+		if !seen[ac.Callee] {
+			seen[ac.Callee] = true
+			f.callOrd["atn "+ac.Callee]++
+		}
+		if f.callOrd["atn "+ac.Callee] != ac.Ordinal {
+			continue
+		}
+		env := f.pointEnv(f.heap)
+		for i, cl := range ac.Asserts {
+			g := f.obligeClause("assert", fmt.Sprintf("%s#at:%s#%d.assert%d", shortFn(f.c.fn), ac.Callee, ac.Ordinal, i+1), env, cl, f.guard, f.pos(pos), false)
+			f.c.assume(implies(f.guard, g))
+		}
+	}
+}
+
+// pointEnv: spec environment at a program point; local names resolve to the last recorded value
+// of the variable that is available on this path.
+func (f *frame) pointEnv(heap *heapState) *specEnv {
+	env := f.baseEnv(heap)
+	env.resolve = func(name string) (SVal, bool) {
+		if a, ok := f.debugAddr[name]; ok {
+			if have, ok := f.vals[a]; ok {
+				return f.sval(have, a.Type()), true
+			}
+		}
+		var found ssa.Value
+		for _, v := range f.debug[name] {
+			if _, have := f.vals[v]; have {
+				found = v
+			}
+		}
+		if found != nil {
+			return f.sval(f.vals[found], found.Type()), true
+		}
+		return SVal{}, false
+	}
+	return env
 }
 
 // doCall performs a call whose operands have already been evaluated (also used for
